@@ -1,11 +1,13 @@
 (* C08tag -- what Ser writes for start tags, end tags, text and whitespace is read back by S_tok (the WHATWG
-   tokenizer transcription) as exactly those tokens; lifted to whole streams without raw-text elements. *)
+   tokenizer transcription) as exactly those tokens; with comments (C08comment) and doctypes (C08doctype) lifted to
+   whole streams without raw-text elements. *)
 From Coq Require Import NArith List Bool Arith Lia ZifyBool ZifyN.
 From Verif Require Import Sx Str Tok.
 From Verif.Gen Require Import Consts Entities Serializer.
 From Verif.Model Require Import CharRef TokBase Ser.
 From Verif.Spec Require Import CharRef TokSpec.
 From Verif.Proofs Require Import C08 SpecTac.
+From Verif.Proofs Require Import C08comment C08doctype.
 Import ListNotations.
 Local Open Scope N_scope.
 
@@ -382,6 +384,9 @@ Definition safe_tok (o : sopts) (t : token) : Prop :=
       tname_ok n = true /\ (mem_str n rcdataElements && negb (escape_rcdata o)) = false /\
       forallb (fun x : attr => aname_ok (snd (fst x))) a = true
   | TEnd _ n => tname_ok n = true
+  | TComment d => no_dd d = true /\ starts_with [62] d = false /\ starts_with [45; 62] d = false   (* iff Ser reports no error *)
+  | TDoctype (Some n) pub sys =>
+      dname_ok n = true /\ (nonempty pub = true -> id_ok (oget pub) = true) /\ (nonempty sys = true -> id_ok (oget sys) = true)
   | _ => False
   end.
 Definition rd_tok (o : sopts) (t : token) : list otok :=
@@ -389,6 +394,8 @@ Definition rd_tok (o : sopts) (t : token) : list otok :=
   | TChars s | TSpace s => map (fun c => OChars [c]) s
   | TStart _ n a | TEmpty _ n a => [OStart (lower_str n) (first_wins [] (map (rd_attr o n) a)) (mem_str n voidElements && solidus o)]
   | TEnd _ n => [OEnd (lower_str n) [] false]
+  | TComment d => [OComment (map nulfix d)]
+  | TDoctype (Some n) pub sys => [ODoctype (rdn n) (rd_id pub) (rd_id sys) true]
   | _ => []
   end.
 
@@ -406,6 +413,10 @@ Proof.
     assert (Hstep : c' = false /\ exists j cu', sp_iter j (mk_tk dataState (txt0 ++ txt' ++ rest) cu tm out cd false)
                 = Some (mk_tk dataState (txt' ++ rest) cu' tm (rev (rd_tok o tk0) ++ out) cd false)).
     { destruct tk0 as [dn dp ds|s|s|ns name a|ns name|ns name a|d|en|er|ty]; cbn [safe_tok] in Ht; try contradiction; cbn [ser_token] in Etok.
+      - destruct dn as [n|]; [|contradiction]. destruct Ht as (Hn & Hp & Hs').
+        destruct (ser_doctype (Some n) dp ds) as [dtxt derr] eqn:Ed. injection Etok as E1 E2 E3; subst c' txt0 e0. split; [reflexivity|].
+        destruct (doctype_roundtrip n dp ds (txt' ++ rest) cu tm out cd Hn Hp Hs') as [j Hj]. rewrite Ed in Hj. cbn [fst] in Hj.
+        eexists j, _. exact Hj.
       - injection Etok as E1 E2 E3; subst c' txt0 e0. split; [reflexivity|].
         destruct (text_roundtrip s (txt' ++ rest) cu tm out cd false) as [j Hj]. exists j, cu. exact Hj.
       - injection Etok as E1 E2 E3; subst c' txt0 e0. split; [reflexivity|]. exists (length s), cu. cbn [rd_tok]. apply space_roundtrip. exact Ht.
@@ -415,9 +426,47 @@ Proof.
         destruct (end_tag_roundtrip name (txt' ++ rest) cu tm out cd Ht) as [j Hj]. eexists j, _.
         cbn [app] in Hj |- *. rewrite <- ?app_assoc. cbn [app]. exact Hj.
       - destruct Ht as (Hn & Hrc & Ha). rewrite Hrc in Etok. injection Etok as E1 E2 E3; subst c' txt0 e0. split; [reflexivity|].
-        destruct (start_tag_roundtrip o name a (txt' ++ rest) cu tm out cd Hq Hn Ha) as [j Hj]. eexists j, _. exact Hj. }
+        destruct (start_tag_roundtrip o name a (txt' ++ rest) cu tm out cd Hq Hn Ha) as [j Hj]. eexists j, _. exact Hj.
+      - destruct Ht as (Hd & Hs1 & Hs2). injection Etok as E1 E2 E3; subst c' txt0 e0. split; [reflexivity|].
+        destruct (comment_roundtrip d (txt' ++ rest) cu tm out cd Hd Hs1 Hs2) as [j Hj]. eexists j, _.
+        cbn [rd_tok rev app]. rewrite <- !app_assoc. cbn [app] in Hj |- *. rewrite <- ?app_assoc. cbn [app]. exact Hj. }
     destruct Hstep as (-> & j1 & cu1 & H1).
     destruct (IH txt' e' rest cu1 tm (rev (rd_tok o tk0) ++ out) cd Hts Eloop) as (j2 & cu2 & H2).
     exists (j1 + j2)%nat, cu2. erewrite sp_iter_app; [|exact H1]. rewrite H2.
     cbn [flat_map]. rewrite rev_app_distr, <- app_assoc. reflexivity.
+Qed.
+
+(* "... or an error is reported": the conditions on comments are exactly Ser reporting no error *)
+Definition shape_tok (o : sopts) (t : token) : Prop :=
+  match t with TComment _ => True | _ => safe_tok o t end.
+
+Lemma no_errors_safe o : forall ts txt, Forall (shape_tok o) ts -> ser_loop o false ts = Some (txt, []) -> Forall (safe_tok o) ts.
+Proof.
+  induction ts as [|tk0 ts IH]; intros txt Hs Hl; [constructor|].
+  inversion Hs as [|? ? Ht Hts]; subst. cbn [ser_loop] in Hl.
+  destruct (ser_token o false tk0) as [[[c' txt0] e0]|] eqn:Etok; [|discriminate Hl].
+  destruct (ser_loop o c' ts) as [[txt' e']|] eqn:Eloop; [|discriminate Hl].
+  assert (He : e0 = [] /\ e' = []) by (apply app_eq_nil; congruence).
+  destruct He as [-> ->].
+  assert (Hc : c' = false /\ safe_tok o tk0).
+  { destruct tk0 as [dn dp ds|s|s|ns name a|ns name|ns name a|d|en|er|ty]; cbn [shape_tok safe_tok] in Ht |- *; try contradiction;
+      cbn [ser_token] in Etok.
+    - destruct dn as [n|]; [|contradiction]. destruct (ser_doctype (Some n) dp ds) as [dtxt derr]. inversion Etok; subst. split; [reflexivity|exact Ht].
+    - inversion Etok; subst. split; [reflexivity|exact I].
+    - inversion Etok; subst. split; [reflexivity|exact Ht].
+    - destruct Ht as (Hn & Hrc & Ha). rewrite Hrc in Etok. inversion Etok; subst. split; [reflexivity|repeat split; assumption].
+    - inversion Etok; subst. split; [|exact Ht]. match goal with |- (if ?b then _ else _) = _ => destruct b; reflexivity end.
+    - destruct Ht as (Hn & Hrc & Ha). rewrite Hrc in Etok. inversion Etok; subst. split; [reflexivity|repeat split; assumption].
+    - split; [inversion Etok; reflexivity|]. apply (ser_comment_ok o). cbn [ser_token]. rewrite Etok.
+      inversion Etok. reflexivity. }
+  destruct Hc as [-> Hsafe]. constructor; [exact Hsafe|]. exact (IH txt' Hts Eloop).
+Qed.
+
+Theorem stream_roundtrip_no_errors o : qc_ok o -> forall ts txt rest cu tm out cd,
+  Forall (shape_tok o) ts -> ser_loop o false ts = Some (txt, []) ->
+  exists j cu', sp_iter j (mk_tk dataState (txt ++ rest) cu tm out cd false)
+                = Some (mk_tk dataState rest cu' tm (rev (flat_map (rd_tok o) ts) ++ out) cd false).
+Proof.
+  intros Hq ts txt rest cu tm out cd Hs Hl.
+  exact (stream_roundtrip o Hq ts txt [] rest cu tm out cd (no_errors_safe o ts txt Hs Hl) Hl).
 Qed.
